@@ -292,6 +292,13 @@ def generations(m, den0, ctx, site, case, from_file):
         ctx.check("write.raises", False, site=dict(site, exc=type(e).__name__), case=case, observed=f"{type(e).__name__}: {e}"[:300], expected="text")
         return
     ctx.passed("write.raises")
+    # writing is an observation: the same object written again gives the same lines
+    ctx.transition()
+    try:
+        again = m.write()
+        ctx.check("write.repeatable", again == w1, site=dict(route=site.get("route")), case=case, observed=again[-8:], expected=w1[-8:])
+    except Exception as e:
+        ctx.check("write.repeatable", False, site=dict(route=site.get("route"), exc=type(e).__name__), case=case, observed=f"{type(e).__name__}: {e}"[:300], expected="the same lines")
     try:
         p1 = ro.parse(w1)
     except ro.Malformed as e:
@@ -415,6 +422,20 @@ def check_inmem(keys, objs, ctx):
         return
     den0 = lib_den(m)
     generations(m, den0, ctx, site, case, from_file=False)
+    # second use: the same object, already written once, is turned into a chart with another key count in place
+    # (setter for CircleSize, column setters of the lists); what it writes then denotes the chart as it is now.
+    # The expectation comes from a fresh twin built with the new key count, never from the used object.
+    for k2 in ([7 if keys != 7 else 4] if len(objs) > 2 else [k for k in (4, 7, 10) if k != keys]):
+        twin = build_inmem(k2, objs)
+        ctx.transition()
+        try:
+            m.circle_size = k2
+            m.hits.column = twin.hits.column.to_numpy()
+            m.holds.column = twin.holds.column.to_numpy()
+        except Exception as e:
+            ctx.check("inmem.rekey", False, site=dict(route="inmem/rekey", exc=type(e).__name__), case=case, observed=f"{type(e).__name__}: {e}"[:300], expected="edited chart")
+            return
+        generations(m, lib_den(twin), ctx, dict(route="inmem/rekey", to=k2), dict(case, rekey=k2), from_file=False)
 
 
 # ---- (keys, x) table ------------------------------------------------------------------------------------------
